@@ -103,6 +103,10 @@ func ruleOwn5(c *Ctx, r *Reporter) {
 				continue
 			}
 		}
+		// a function literal written inside a driver method is part of that method
+		if fn.Parent() != nil && s.boundaryKind(outermost(fn)) == tPD {
+			continue
+		}
 		for _, p := range fn.Params {
 			if s.param[p].deep&tPD != 0 {
 				r.bad(funcName(fn)+":receives driver argument "+p.Name(), c.pos(fn.Pos()), "a container owned by the caller of a driver method reaches this function without passing Transform: it could be retained or modified")
